@@ -94,9 +94,10 @@ C18_json(di, out) ==
                  = (IF di.runs[r].dsts \in DOMAIN di.names THEN di.names[di.runs[r].dsts] ELSE <<>>)
            /\ \A k \in DOMAIN di.runs[r].hops :
                 LET i == di.runs[r].hops[k]  h == runs[r].hops[k] IN
-                (di.skip_private /\ IsPrivate(i.b)) \/
-                  (/\ NamesOfHop(h) = (IF i.s \in DOMAIN di.names THEN di.names[i.s] ELSE <<>>)
-                   /\ h.ip_address = i.s /\ h.rtt = i.rtt * 1000)
+                \* (a redacted hop reports no address: no name the resolver returned belongs to it)
+                IF di.skip_private /\ IsPrivate(i.b) THEN NamesOfHop(h) = <<>>
+                ELSE (/\ NamesOfHop(h) = (IF i.s \in DOMAIN di.names THEN di.names[i.s] ELSE <<>>)
+                      /\ h.ip_address = i.s /\ h.rtt = i.rtt * 1000)
 
 \* C18(b) after the pipeline: a success stored during enrichment is returned until expiry without asking the resolver again
 C18_reprobe(di, got) ==
